@@ -42,23 +42,23 @@ theorem sukf_noise_full (R : SNoise ℝ (nb * bs) bs) (h : R.BlockDiag) : toM R.
   R.toM_toFull h
 
 /-- Corrected covariance: `X C Xᵀ` of the serial correction is `P − K S Kᵀ` of the standard one. -/
-theorem sukf_cov_eq_ukf (inv : InvFn ℝ) (hinv : InvCorrect inv) (R : SNoise ℝ (nb * bs) bs)
+theorem sukf_cov_eq_ukf (inv : InvFn ℝ) (hinv : InvCorrect inv) (nc : Nat) (R : SNoise ℝ (nb * bs) bs)
     (m : Vec ℝ n) (P : Mat ℝ n n) (X : Mat ℝ n s) (Yp : Mat ℝ (nb * bs) s) (wm wc : Vec ℝ s) (y : Vec ℝ (nb * bs))
     (hw : ∀ j, 0 ≤ wc j) (hBD : R.BlockDiag) (hRpd : ∀ j, (toM (R.blockAt j)).PosDef)
-    (hX : toM (wOuter (offX m X) wc (offX m X)) = toM P) :
-    toM (sukfComp inv R m X Yp wm wc y).cov = toM (ukfComp inv R.toFull m P X Yp wm wc y).cov ∧
-    IsUnit (toM (sukfCinv inv R (sukfComp inv R m X Yp wm wc y).Y)) ∧
-    IsUnit (toM (ukfComp inv R.toFull m P X Yp wm wc y).Pyy) := by
-  obtain ⟨h1, _, h3, h4⟩ := sukfComp_eq_ukfComp inv R R.toFull m P X Yp wm wc y hinv hw hRpd (R.toM_toFull hBD) hX
+    (hX : toM (wOuter (offX nc m X) wc (offX nc m X)) = toM P) :
+    toM (sukfComp inv nc R m X Yp wm wc y).cov = toM (ukfComp inv nc R.toFull m P X Yp wm wc y).cov ∧
+    IsUnit (toM (sukfCinv inv R (sukfComp inv nc R m X Yp wm wc y).Y)) ∧
+    IsUnit (toM (ukfComp inv nc R.toFull m P X Yp wm wc y).Pyy) := by
+  obtain ⟨h1, _, h3, h4⟩ := sukfComp_eq_ukfComp inv nc R R.toFull m P X Yp wm wc y hinv hw hRpd (R.toM_toFull hBD) hX
   exact ⟨h1, h3, h4.isUnit⟩
 
 /-- Corrected mean: `m + X C d` of the serial correction is `m + K ν` of the standard one. -/
-theorem sukf_mean_eq_ukf (inv : InvFn ℝ) (hinv : InvCorrect inv) (R : SNoise ℝ (nb * bs) bs)
+theorem sukf_mean_eq_ukf (inv : InvFn ℝ) (hinv : InvCorrect inv) (nc : Nat) (R : SNoise ℝ (nb * bs) bs)
     (m : Vec ℝ n) (P : Mat ℝ n n) (X : Mat ℝ n s) (Yp : Mat ℝ (nb * bs) s) (wm wc : Vec ℝ s) (y : Vec ℝ (nb * bs))
     (hw : ∀ j, 0 ≤ wc j) (hBD : R.BlockDiag) (hRpd : ∀ j, (toM (R.blockAt j)).PosDef)
-    (hX : toM (wOuter (offX m X) wc (offX m X)) = toM P) :
-    toV (sukfComp inv R m X Yp wm wc y).mean = toV (ukfComp inv R.toFull m P X Yp wm wc y).mean :=
-  (sukfComp_eq_ukfComp inv R R.toFull m P X Yp wm wc y hinv hw hRpd (R.toM_toFull hBD) hX).2.1
+    (hX : toM (wOuter (offX nc m X) wc (offX nc m X)) = toM P) :
+    toV (sukfComp inv nc R m X Yp wm wc y).mean = toV (ukfComp inv nc R.toFull m P X Yp wm wc y).mean :=
+  (sukfComp_eq_ukfComp inv nc R R.toFull m P X Yp wm wc y hinv hw hRpd (R.toM_toFull hBD) hX).2.1
 
 /-- the blocks of the `bs × (nb·bs)` row `getLikelihood` assembles are the noise blocks -/
 theorem snoise_row_block (R : SNoise ℝ (nb * bs) bs) (i : Fin nb) :
@@ -68,20 +68,20 @@ theorem snoise_row_block (R : SNoise ℝ (nb * bs) bs) (i : Fin nb) :
 
 /-- Likelihood: the factorised density with `U = Y`, `V = Yᵀ` of the serial correction is the direct
     density `N(ν; 0, S)` of the standard one (`S = Yo W Yoᵀ + R` positive definite: defined). -/
-theorem sukf_likelihood_eq_ukf (inv : InvFn ℝ) (hinv : InvCorrect inv) (R : SNoise ℝ (nb * bs) bs)
+theorem sukf_likelihood_eq_ukf (inv : InvFn ℝ) (hinv : InvCorrect inv) (nc : Nat) (R : SNoise ℝ (nb * bs) bs)
     (m : Vec ℝ n) (P : Mat ℝ n n) (X : Mat ℝ n s) (Yp : Mat ℝ (nb * bs) s) (wm wc : Vec ℝ s) (y : Vec ℝ (nb * bs))
     (hw : ∀ j, 0 ≤ wc j) (hBD : R.BlockDiag) (hRpd : ∀ j, (toM (R.blockAt j)).PosDef) :
-    sukfLik inv R (sukfComp inv R m X Yp wm wc y).Y (sukfComp inv R m X Yp wm wc y).innov
-      = (ukfComp inv R.toFull m P X Yp wm wc y).lik ∧
-    (toM (ukfComp inv R.toFull m P X Yp wm wc y).Pyy).PosDef := by
-  have hSpd := ukf_Pyy_posDef inv R R.toFull m P X Yp wm wc y hw hRpd (R.toM_toFull hBD)
+    sukfLik inv R (sukfComp inv nc R m X Yp wm wc y).Y (sukfComp inv nc R m X Yp wm wc y).innov
+      = (ukfComp inv nc R.toFull m P X Yp wm wc y).lik ∧
+    (toM (ukfComp inv nc R.toFull m P X Yp wm wc y).Pyy).PosDef := by
+  have hSpd := ukf_Pyy_posDef inv nc R R.toFull m P X Yp wm wc y hw hRpd (R.toM_toFull hBD)
   refine ⟨?_, hSpd⟩
-  set c := sukfComp inv R m X Yp wm wc y with hc
-  set u := ukfComp inv R.toFull m P X Yp wm wc y with hu
+  set c := sukfComp inv nc R m X Yp wm wc y with hc
+  set u := ukfComp inv nc R.toFull m P X Yp wm wc y with hu
   -- the assembled covariance of the factorised form is the innovation covariance of the standard correction
   have hA : toM (assembleS c.Y c.Y.transpose (RNoise.perBlock R.row : RNoise ℝ nb bs)) = toM u.Pyy := by
     rw [toM_assembleS, toM_transpose, hu, ukf_Pyy_eq, R.toM_toFull hBD,
-      ← (sukf_moments inv R m X Yp wm wc y hw).1]
+      ← (sukf_moments inv nc R m X Yp wm wc y hw).1]
     simp only [snoise_row_block]
     rfl
   have hApd : (toM (assembleS c.Y c.Y.transpose (RNoise.perBlock R.row : RNoise ℝ nb bs))).PosDef := hA ▸ hSpd
@@ -95,6 +95,24 @@ theorem sukf_likelihood_eq_ukf (inv : InvFn ℝ) (hinv : InvCorrect inv) (R : SN
     simp only [hu, hc, ukfComp, sukfComp]
   rw [hlik, ← h2, ← h1]
   rfl
+
+/-! ### Euler-circular state rows
+
+The last `nc` rows of the state may be Euler angles: the code then forms the offsets of the input
+sigma points with `directional_sub` (`offX`), in the serial and in the standard correction alike, so
+every theorem above holds verbatim (its hypothesis `hX` speaks about these offsets). -/
+
+/-- The circular offsets always lie in `(−π, π]`; they are the plain differences `X − m` whenever the
+    sigma points stay within half a turn of the mean — then `hX` is the plain covariance condition —
+    and for a state without circular rows. -/
+theorem sukf_circular_offsets (nc : Nat) (m : Vec ℝ n) (X : Mat ℝ n s) :
+    (∀ (i : Fin n) (j : Fin s), n ≤ i.val + nc → offX nc m X i j ∈ Set.Ioc (-Real.pi) Real.pi) ∧
+    ((∀ (i : Fin n) (j : Fin s), n ≤ i.val + nc → X i j - m i ∈ Set.Ioc (-Real.pi) Real.pi) →
+        offX nc m X = subCols X m) ∧
+    offX 0 m X = subCols X m := by
+  refine ⟨fun i j h => ?_, offX_eq_subCols nc m X, offX_zero m X⟩
+  simp only [offX, Mat.of_apply, if_neg (Nat.not_lt.2 h)]
+  exact sukfDirSub_mem _ _
 
 /-! ### The whole step -/
 
@@ -139,10 +157,10 @@ theorem sukf_correct_eq_ukf (inv : InvFn ℝ) (hinv : InvCorrect inv) (bs : Nat)
     (hw : ∀ j, 0 ≤ inp.wc j)
     (hBD : (R.cast (Nat.div_mul_cancel (Nat.dvd_of_mod_eq_zero hdiv))).BlockDiag)
     (hRpd : ∀ j, (toM ((R.cast (Nat.div_mul_cancel (Nat.dvd_of_mod_eq_zero hdiv))).blockAt j)).PosDef)
-    (hX : ∀ i, toM (wOuter (offX (b.mean i) (inp.X i)) inp.wc (offX (b.mean i) (inp.X i))) = toM (b.cov i))
+    (hX : ∀ i, toM (wOuter (offX inp.nc (b.mean i) (inp.X i)) inp.wc (offX inp.nc (b.mean i) (inp.X i))) = toM (b.cov i))
     (i : Fin k) :
     let h := Nat.div_mul_cancel (Nat.dvd_of_mod_eq_zero hdiv)
-    let u := ukfComp inv (R.cast h).toFull (b.mean i) (b.cov i) (inp.X i) (castRows h (inp.Yp i)) inp.wm inp.wc (castVec h inp.y)
+    let u := ukfComp inv inp.nc (R.cast h).toFull (b.mean i) (b.cov i) (inp.X i) (castRows h (inp.Yp i)) inp.wm inp.wc (castVec h inp.y)
     toV ((sukfCorrect inv bs R inp b out).mean i) = toV u.mean ∧
     toM ((sukfCorrect inv bs R inp b out).cov i) = toM u.cov ∧
     sukfLikelihoods inv bs hdiv R inp b i = u.lik := by
@@ -150,15 +168,15 @@ theorem sukf_correct_eq_ukf (inv : InvFn ℝ) (hinv : InvCorrect inv) (bs : Nat)
   obtain ⟨e1, e2, _⟩ := sukf_step_components inv bs R inp b out hdiv hv i
   rw [e1, e2]
   refine ⟨?_, ?_, ?_⟩
-  · exact sukf_mean_eq_ukf inv hinv (R.cast h) (b.mean i) (b.cov i) (inp.X i) _ inp.wm inp.wc _ hw hBD hRpd (hX i)
-  · exact (sukf_cov_eq_ukf inv hinv (R.cast h) (b.mean i) (b.cov i) (inp.X i) _ inp.wm inp.wc _ hw hBD hRpd (hX i)).1
-  · exact (sukf_likelihood_eq_ukf inv hinv (R.cast h) (b.mean i) (b.cov i) (inp.X i) _ inp.wm inp.wc _ hw hBD hRpd).1
+  · exact sukf_mean_eq_ukf inv hinv inp.nc (R.cast h) (b.mean i) (b.cov i) (inp.X i) _ inp.wm inp.wc _ hw hBD hRpd (hX i)
+  · exact (sukf_cov_eq_ukf inv hinv inp.nc (R.cast h) (b.mean i) (b.cov i) (inp.X i) _ inp.wm inp.wc _ hw hBD hRpd (hX i)).1
+  · exact (sukf_likelihood_eq_ukf inv hinv inp.nc (R.cast h) (b.mean i) (b.cov i) (inp.X i) _ inp.wm inp.wc _ hw hBD hRpd).1
 
 /-- Re-typing the measurement (`msz' = msz`) does not change what the standard correction computes. -/
-theorem ukfComp_cast (inv : InvFn ℝ) {msz' : Nat} (h : msz' = msz) (Rfull : Mat ℝ msz msz)
+theorem ukfComp_cast (inv : InvFn ℝ) (nc : Nat) {msz' : Nat} (h : msz' = msz) (Rfull : Mat ℝ msz msz)
     (m : Vec ℝ n) (P : Mat ℝ n n) (X : Mat ℝ n s) (Yp : Mat ℝ msz s) (wm wc : Vec ℝ s) (y : Vec ℝ msz) :
-    let u' := ukfComp inv (Mat.of (fun p q => Rfull (Fin.cast h p) (Fin.cast h q))) m P X (castRows h Yp) wm wc (castVec h y)
-    let u := ukfComp inv Rfull m P X Yp wm wc y
+    let u' := ukfComp inv nc (Mat.of (fun p q => Rfull (Fin.cast h p) (Fin.cast h q))) m P X (castRows h Yp) wm wc (castVec h y)
+    let u := ukfComp inv nc Rfull m P X Yp wm wc y
     u'.mean = u.mean ∧ u'.cov = u.cov ∧ u'.lik = u.lik := by
   subst h
   have e1 : (Mat.of (fun p q => Rfull (Fin.cast rfl p) (Fin.cast rfl q)) : Mat ℝ msz' msz') = Rfull := by ext p q; simp
@@ -175,16 +193,16 @@ theorem sukf_correct_eq_ukf_full (inv : InvFn ℝ) (hinv : InvCorrect inv) (bs :
     (hw : ∀ j, 0 ≤ inp.wc j)
     (hBD : ((SNoise.full R0 : SNoise ℝ msz bs).cast (Nat.div_mul_cancel (Nat.dvd_of_mod_eq_zero hdiv))).BlockDiag)
     (hRpd : ∀ j, (toM (((SNoise.full R0 : SNoise ℝ msz bs).cast (Nat.div_mul_cancel (Nat.dvd_of_mod_eq_zero hdiv))).blockAt j)).PosDef)
-    (hX : ∀ i, toM (wOuter (offX (b.mean i) (inp.X i)) inp.wc (offX (b.mean i) (inp.X i))) = toM (b.cov i))
+    (hX : ∀ i, toM (wOuter (offX inp.nc (b.mean i) (inp.X i)) inp.wc (offX inp.nc (b.mean i) (inp.X i))) = toM (b.cov i))
     (i : Fin k) :
-    let u := ukfComp inv R0 (b.mean i) (b.cov i) (inp.X i) (inp.Yp i) inp.wm inp.wc inp.y
+    let u := ukfComp inv inp.nc R0 (b.mean i) (b.cov i) (inp.X i) (inp.Yp i) inp.wm inp.wc inp.y
     toV ((sukfCorrect inv bs (SNoise.full R0) inp b out).mean i) = toV u.mean ∧
     toM ((sukfCorrect inv bs (SNoise.full R0) inp b out).cov i) = toM u.cov ∧
     sukfLikelihoods inv bs hdiv (SNoise.full R0) inp b i = u.lik := by
   intro u
   have h := Nat.div_mul_cancel (Nat.dvd_of_mod_eq_zero hdiv)
   obtain ⟨a1, a2, a3⟩ := sukf_correct_eq_ukf inv hinv bs (SNoise.full R0) inp b out hdiv hv hw hBD hRpd hX i
-  obtain ⟨c1, c2, c3⟩ := ukfComp_cast inv h R0 (b.mean i) (b.cov i) (inp.X i) (inp.Yp i) inp.wm inp.wc inp.y
+  obtain ⟨c1, c2, c3⟩ := ukfComp_cast inv inp.nc h R0 (b.mean i) (b.cov i) (inp.X i) (inp.Yp i) inp.wm inp.wc inp.y
   simp only [SNoise.cast, SNoise.toFull] at a1 a2 a3
   exact ⟨by rw [a1, c1], by rw [a2, c2], by rw [a3, c3]⟩
 
@@ -197,13 +215,13 @@ the standard correction uses: over ℝ, `√wc · √wc = max wc 0` (in floating
 `Yo W Yoᵀ = −1`, so the innovation covariances `S` — hence gains, covariances and likelihoods — differ. -/
 theorem sukf_negative_weight_counterexample :
     ∃ (wc wm : Vec ℝ 3) (Yp : Mat ℝ (1 * 1) 3), wc 0 < 0 ∧ (∀ j, j ≠ 0 → 0 ≤ wc j) ∧
-      ∀ (inv : InvFn ℝ) (R : SNoise ℝ (1 * 1) 1) (m : Vec ℝ 1) (X : Mat ℝ 1 3) (y : Vec ℝ (1 * 1)),
-        toM (sukfComp inv R m X Yp wm wc y).Y * (toM (sukfComp inv R m X Yp wm wc y).Y)ᵀ
+      ∀ (inv : InvFn ℝ) (nc : Nat) (R : SNoise ℝ (1 * 1) 1) (m : Vec ℝ 1) (X : Mat ℝ 1 3) (y : Vec ℝ (1 * 1)),
+        toM (sukfComp inv nc R m X Yp wm wc y).Y * (toM (sukfComp inv nc R m X Yp wm wc y).Y)ᵀ
           ≠ toM (wOuter (offY Yp wm) wc (offY Yp wm)) := by
   refine ⟨Vec.of (fun j => if j = 0 then -1 else 1), Vec.of (fun _ => 0),
     Mat.of (fun _ j => if j = 0 then 1 else 0), by simp, ?_, ?_⟩
   · intro j hj; simp [hj]
-  · intro inv R m X y hEq
+  · intro inv nc R m X y hEq
     have h00 := congrFun (congrFun hEq 0) 0
     rw [sukf_Y_eq, toM_wOuter] at h00
     simp only [Matrix.mul_apply, Matrix.of_apply, Matrix.transpose_apply, toM_apply, offY, subCols, Mat.of_apply,
@@ -220,7 +238,7 @@ theorem sukf_negative_weight_counterexample :
     `(0, 1, −1)` reproducing `P = 1`, Mathlib's inverse as the routine, any propagated points. -/
 example : ∃ (inv : InvFn ℝ) (R : SNoise ℝ (2 * 1) 1) (m : Vec ℝ 1) (P : Mat ℝ 1 1) (X : Mat ℝ 1 3) (wc : Vec ℝ 3),
     InvCorrect inv ∧ (∀ j, 0 ≤ wc j) ∧ R.BlockDiag ∧ (∀ j, (toM (R.blockAt j)).PosDef) ∧
-    toM (wOuter (offX m X) wc (offX m X)) = toM P := by
+    toM (wOuter (offX 0 m X) wc (offX 0 m X)) = toM P := by
   refine ⟨mathlibInv, SNoise.reduced Mat.one, Vec.of (fun _ => 0), Mat.one,
     Mat.of (fun _ j => if j = 0 then 0 else if j = 1 then 1 else -1),
     Vec.of (fun j => if j = 0 then 0 else 1 / 2), fun n A h => mathlibInv_ok A h, ?_, trivial, ?_, ?_⟩
@@ -230,7 +248,7 @@ example : ∃ (inv : InvFn ℝ) (R : SNoise ℝ (2 * 1) 1) (m : Vec ℝ 1) (P : 
     exact Matrix.PosDef.one
   · ext a c
     rw [toM_wOuter]
-    simp only [Matrix.mul_apply, Matrix.of_apply, Matrix.transpose_apply, toM_apply, offX, subCols, Mat.of_apply,
+    simp only [Matrix.mul_apply, Matrix.of_apply, Matrix.transpose_apply, toM_apply, offX, Mat.of_apply,
       Vec.of_apply, sub_zero]
     rw [Fin.sum_univ_three]
     have ha : a = 0 := Subsingleton.elim _ _
@@ -239,5 +257,39 @@ example : ∃ (inv : InvFn ℝ) (R : SNoise ℝ (2 * 1) 1) (m : Vec ℝ 1) (P : 
     have h2 : (2 : Fin 3) ≠ 0 := by decide
     have h21 : (2 : Fin 3) ≠ 1 := by decide
     norm_num [h2, h21]
+
+/-! ### Deepening round -/
+
+/-- Without the contract `hX` of `sigma_point()` the two covariances differ exactly by the defect of the
+    sigma points: `X C Xᵀ = (P − K S Kᵀ) + (Σ_j wc_j Xo_j Xo_jᵀ − P)`.  (This is the form the correspondence
+    check evaluates on the implementation's sigma points, which reproduce `P` only up to rounding.) -/
+theorem sukf_cov_eq_ukf_general (inv : InvFn ℝ) (hinv : InvCorrect inv) (nc : Nat) (R : SNoise ℝ (nb * bs) bs)
+    (m : Vec ℝ n) (P : Mat ℝ n n) (X : Mat ℝ n s) (Yp : Mat ℝ (nb * bs) s) (wm wc : Vec ℝ s) (y : Vec ℝ (nb * bs))
+    (hw : ∀ j, 0 ≤ wc j) (hBD : R.BlockDiag) (hRpd : ∀ j, (toM (R.blockAt j)).PosDef) :
+    toM (sukfComp inv nc R m X Yp wm wc y).cov
+      = toM (ukfComp inv nc R.toFull m P X Yp wm wc y).cov
+        + (toM (wOuter (offX nc m X) wc (offX nc m X)) - toM P) := by
+  have h := (sukf_cov_eq_ukf inv hinv nc R m (wOuter (offX nc m X) wc (offX nc m X)) X Yp wm wc y hw hBD hRpd rfl).1
+  rw [h]
+  simp only [ukfComp, toM_sub, Mat.eval_eq]
+  abel
+
+/-- The block-diagonality of a full noise covariance is needed: the serial correction reads only the
+    diagonal blocks.  Witness: `R = [[1, 1/2], [1/2, 1]]` with block size 1 — positive definite blocks `1`, `1`,
+    but `R` is not the block-diagonal matrix of its blocks (so the standard correction, which is given `R`,
+    uses a different innovation covariance). -/
+theorem sukf_blockdiag_needed :
+    ∃ R0 : Mat ℝ (2 * 1) (2 * 1), (∀ j, (toM ((SNoise.full R0 : SNoise ℝ (2 * 1) 1).blockAt j)).PosDef) ∧
+      toM (SNoise.full R0 : SNoise ℝ (2 * 1) 1).toFull ≠ (SNoise.full R0 : SNoise ℝ (2 * 1) 1).Rf := by
+  refine ⟨Mat.of (fun p q => if p = q then 1 else 1 / 2), fun j => ?_, fun h => ?_⟩
+  · have : toM ((SNoise.full (Mat.of (fun p q => if p = q then (1:ℝ) else 1 / 2)) : SNoise ℝ (2 * 1) 1).blockAt j) = 1 := by
+      ext a c
+      have ha : a = 0 := Subsingleton.elim _ _
+      have hc : c = 0 := Subsingleton.elim _ _
+      subst ha; subst hc
+      simp [SNoise.blockAt, Mat.blkDiag]
+    rw [this]; exact Matrix.PosDef.one
+  · have h01 := congrFun (congrFun h (0 : Fin (2 * 1))) (1 : Fin (2 * 1))
+    simp [SNoise.toFull, SNoise.Rf, bdiag, Fin.divNat] at h01
 
 end BFL
